@@ -16,6 +16,7 @@ type Writer struct {
 	frame  bytes.Buffer
 	putbuf [64]byte // buffer used to construct messages which could be written to the writer frame buffer
 	err    error
+	failed error // first error returned by the underlying writer, no further messages are written once set
 }
 
 // NewWriter constructs a new Postgres buffered message writer for the given io.Writer
@@ -130,10 +131,20 @@ func (writer *Writer) End() error {
 		return writer.Error()
 	}
 
+	// NOTE: a failed write could have delivered a part of the message. Anything
+	// written after it would be read by the client as the remainder of that
+	// message, no further messages are written once the underlying writer failed.
+	if writer.failed != nil {
+		return writer.failed
+	}
+
 	bytes := writer.frame.Bytes()
 	length := uint32(writer.frame.Len() - 1) // total message length minus the message type byte
 	binary.BigEndian.PutUint32(bytes[1:5], length)
 	_, err := writer.Writer.Write(bytes)
+	if err != nil {
+		writer.failed = err
+	}
 
 	writer.logger.Debug("-> writing message", slog.String("type", types.ServerMessage(bytes[0]).String()))
 	return err
